@@ -54,48 +54,78 @@ theorem C17_refused_as_invalid (r : Repo) (h : Hdr) (ok : Bool) (pb : Nat) (ph :
     rcases hs2 with hs | hs <;> simp [hs]
   simp only [hb, Bool.false_eq_true, ↓reduceIte, hw', hparent, hfresh, Option.isSome_none, h1, h2, hdaa, hm]
 
-/-- **C17 (marking records the hash).** -/
-theorem C17_mark_records (r : Repo) (id : Nat) : (markInvalid r id).1.invalid.contains id = true := by
-  unfold markInvalid
+theorem markRecord_contains (r : Repo) (id : Nat) : (markRecord r id).invalid.contains id = true := by
+  unfold markRecord
   by_cases hc : r.invalid.contains id = true
   · simp only [hc, ↓reduceIte]
   · simp only [hc, Bool.false_eq_true, ↓reduceIte]
     have key : (r.invalid ++ [id]).contains id = true := by simp
-    split
-    · simpa [saveInvalid, Repo.emit] using key
-    · split
-      · simpa [saveInvalid, Repo.emit] using key
-      · rename_i r2 htrim
-        -- trim does not touch the invalid list
-        have hinv : r2.invalid = (saveInvalid { r with invalid := r.invalid ++ [id] }).invalid := by
-          unfold trim at htrim
-          simp only at htrim
-          split at htrim
-          · cases htrim
-          · rename_i r1 hs1
-            simp only [Except.ok.injEq] at htrim
-            rw [← htrim]
-            simp only
-            split at hs1
-            · simp only [Except.ok.injEq] at hs1; rw [← hs1]
-            · split at hs1
-              · cases hs1
-              · split at hs1
-                · cases hs1
-                · split at hs1
-                  · cases hs1
-                  · split at hs1
-                    · cases hs1
-                    · simp only [Except.ok.injEq] at hs1; rw [← hs1]; rfl
-        split <;> (simp only; first | (rw [hinv]; simpa [saveInvalid, Repo.emit] using key) | skip)
+    simpa [saveInvalid, Repo.emit] using key
 
-/-- **C17 (marking twice = marking once).** -/
-theorem C17_mark_idempotent (r : Repo) (id : Nat) :
+theorem markRecord_find (r : Repo) (id x : Nat) : (markRecord r id).branchesFind x = r.branchesFind x := by
+  unfold markRecord
+  split
+  · rfl
+  · rfl
+
+/-- `trim` does not touch the invalid list. -/
+theorem trim_invalid (r1 : Repo) (bi : Nat) (h : Int) (r2 : Repo) (htrim : trim r1 bi h = .ok r2) :
+    r2.invalid = r1.invalid := by
+  unfold trim at htrim
+  simp only at htrim
+  split at htrim
+  · cases htrim
+  · rename_i r1' hs1
+    simp only [Except.ok.injEq] at htrim
+    rw [← htrim]
+    simp only
+    split at hs1
+    · simp only [Except.ok.injEq] at hs1; rw [← hs1]
+    · split at hs1
+      · cases hs1
+      · split at hs1
+        · cases hs1
+        · split at hs1
+          · cases hs1
+          · split at hs1
+            · cases hs1
+            · simp only [Except.ok.injEq] at hs1; rw [← hs1]; rfl
+
+/-- **C17 (marking records the hash)**, whatever the outcome. -/
+theorem C17_mark_records (r : Repo) (id : Nat) : (markInvalid r id).1.invalid.contains id = true := by
+  have key := markRecord_contains r id
+  unfold markInvalid
+  simp only
+  split
+  · exact key
+  · split
+    · exact key
+    · rename_i r2 htrim
+      have hinv := trim_invalid _ _ _ _ htrim
+      split <;> (simp only; rw [hinv]; exact key)
+
+/-- **C17 (marking twice = marking once).** After a successful mark in a well-linked forest with unique
+    identities, a second mark of the same hash changes nothing and succeeds: the hash is in the list and no
+    tracked branch holds the header any more. -/
+theorem C17_mark_idempotent (r : Repo) (hf : ForestOK r) (hi : IdOK r) (id : Nat) (hs : (markInvalid r id).2 = none) :
     markInvalid (markInvalid r id).1 id = ((markInvalid r id).1, none) := by
   have h := C17_mark_records r id
-  generalize (markInvalid r id).1 = r' at h ⊢
+  have hf' := forestOK_markInvalid r hf id
+  have hex := markInvalid_excludes r hf hi id hs
+  generalize (markInvalid r id).1 = r' at h hf' hex ⊢
+  have hrec : markRecord r' id = r' := by unfold markRecord; simp only [h, ↓reduceIte]
+  have hnone : r'.branchesFind id = none := by
+    cases hfind : r'.branchesFind id with
+    | none => rfl
+    | some x =>
+      obtain ⟨bi, hh⟩ := x
+      obtain ⟨hbim, d, hd, hid⟩ := found_holder r' hf' id bi hh hfind
+      unfold getI at hd
+      split at hd
+      · cases hd
+      · exact absurd hid (hex bi hbim _ d hd)
   unfold markInvalid
-  simp only [h, ↓reduceIte]
+  simp only [hrec, hnone]
 
 /-- **C17 (marking an unknown hash simply pre-empts it).** Branches, tip, heights and main/branch
     storage are untouched; only the invalid list (in memory and in storage) grows. -/
@@ -105,10 +135,19 @@ theorem C17_unknown_mark (r : Repo) (id : Nat) (hnew : r.invalid.contains id = f
     (markInvalid r id).2 = none ∧ r'.arena = r.arena ∧ r'.branches = r.branches ∧ r'.longest = r.longest ∧
     r'.heights = r.heights ∧ r'.invalid = r.invalid ++ [id] ∧ r'.store.invalid = some (r.invalid ++ [id]) ∧
     r'.store.main = r.store.main ∧ r'.store.branches = r.store.branches ∧ r'.store.index = r.store.index := by
-  have hfind : (saveInvalid { r with invalid := r.invalid ++ [id] }).branchesFind id = none := by
-    simpa [saveInvalid, Repo.emit, Repo.branchesFind, Repo.find, Repo.fuel] using hunk
-  simp only [markInvalid, hnew, Bool.false_eq_true, ↓reduceIte, hfind]
-  simp [saveInvalid, Repo.emit, Store.apply]
+  have hfind : (markRecord r id).branchesFind id = none := by rw [markRecord_find]; exact hunk
+  have hc : ¬ (id ∈ r.invalid) := by
+    intro hm; have : r.invalid.contains id = true := by simpa using hm
+    rw [hnew] at this; cases this
+  simp only [markInvalid, hfind]
+  simp [markRecord, hc, saveInvalid, Repo.emit, Store.apply]
+
+/-- marking an unknown hash that is already in the list (for instance a configured one) changes nothing. -/
+theorem C17_unknown_mark_again (r : Repo) (id : Nat) (hold : r.invalid.contains id = true)
+    (hunk : r.branchesFind id = none) : markInvalid r id = (r, none) := by
+  have hrec : markRecord r id = r := by unfold markRecord; simp only [hold, ↓reduceIte]
+  unfold markInvalid
+  simp only [hrec, hunk]
 
 /-- **C17 (the marked header and everything built on it are excluded; fall back to the heaviest
     remaining chain).** In every state reached by submissions from genesis: after `MarkHeaderInvalid`
@@ -117,7 +156,7 @@ theorem C17_unknown_mark (r : Repo) (id : Nat) (hnew : r.invalid.contains id = f
     particular (2) the reported best chain does not; (3) the reported tip is a tracked branch whose
     accumulated work is maximal among all remaining tracked branches. -/
 theorem C17_marked_excluded (r : Repo) (hs : StreamWF r) (id bi0 : Nat) (h : Int)
-    (hnew : r.invalid.contains id = false) (hf : r.branchesFind id = some (bi0, h))
+    (hf : r.branchesFind id = some (bi0, h))
     (hok : (markInvalid r id).2 = none) :
     (∀ x ∈ (markInvalid r id).1.branches, ∀ (k : Int) (d : HData),
         atH (markInvalid r id).1.arena x k = some d → d.hdr.id ≠ id) ∧
@@ -125,12 +164,15 @@ theorem C17_marked_excluded (r : Repo) (hs : StreamWF r) (id bi0 : Nat) (h : Int
     (∃ wl, lastWork (markInvalid r id).1.arena (markInvalid r id).1.longest = some wl ∧
       ∀ b ∈ (markInvalid r id).1.branches, ∃ w, lastWork (markInvalid r id).1.arena b = some w ∧ w ≤ wl) := by
   have hheld := branchesFind_owner r hs.chain.wf.link hs.chain.wf.ids hs.chain.wf.list id bi0 h hf
-  have hs1 : StreamWF (saveInvalid { r with invalid := r.invalid ++ [id] }) := by
-    refine streamWF_congr r _ ?_ ?_ ?_ hs <;> rfl
-  have hfind : (saveInvalid { r with invalid := r.invalid ++ [id] }).branchesFind id = some (bi0, h) := hf
+  have hs1 : StreamWF (markRecord r id) := by
+    unfold markRecord
+    split
+    · exact hs
+    · refine streamWF_congr r _ ?_ ?_ ?_ hs <;> rfl
+  have hfind : (markRecord r id).branchesFind id = some (bi0, h) := by rw [markRecord_find]; exact hf
   unfold markInvalid at hok ⊢
-  simp only [hnew, Bool.false_eq_true, ↓reduceIte, hfind] at hok ⊢
-  cases ht : trim (saveInvalid { r with invalid := r.invalid ++ [id] }) bi0 h with
+  simp only [hfind] at hok ⊢
+  cases ht : trim (markRecord r id) bi0 h with
   | error e => rw [ht] at hok; cases hok
   | ok r2 =>
     rw [ht] at hok
@@ -140,14 +182,16 @@ theorem C17_marked_excluded (r : Repo) (hs : StreamWF r) (id bi0 : Nat) (h : Int
     | some lg =>
       simp only
       obtain ⟨hmem, hmax⟩ := longestOf_spec _ _ _ hlg
-      exact ⟨trim_excludes _ hs1 bi0 id h hheld r2 ht, hmem, hmax⟩
+      have hheld1 : HeldAt (markRecord r id).arena bi0 id h := by
+        rw [(markRecord_frame r id).1]; exact hheld
+      exact ⟨trim_excludes _ hs1 bi0 id h hheld1 r2 ht, hmem, hmax⟩
 
 /-- the best chain in particular: no height of the reported chain returns the marked header. -/
 theorem C17_best_chain_excludes (r : Repo) (hs : StreamWF r) (id bi0 : Nat) (h : Int)
-    (hnew : r.invalid.contains id = false) (hf : r.branchesFind id = some (bi0, h))
+    (hf : r.branchesFind id = some (bi0, h))
     (hok : (markInvalid r id).2 = none) (k : Int) (d : HData)
     (hd : atH (markInvalid r id).1.arena (markInvalid r id).1.longest k = some d) : d.hdr.id ≠ id := by
-  obtain ⟨hex, hmem, _⟩ := C17_marked_excluded r hs id bi0 h hnew hf hok
+  obtain ⟨hex, hmem, _⟩ := C17_marked_excluded r hs id bi0 h hf hok
   exact hex _ hmem k d hd
 
 /-- **C17 (unmarking makes the header acceptable again).** After `MarkHeaderNotInvalid` the hash is
@@ -239,21 +283,21 @@ theorem C17_fallback_after_load (r0 : Repo) (depth : Int) (hd : 0 ≤ depth) (g 
 
 /-- **C17 (exclusion) from any loaded state.** Load any consistent storage image in which no hash occurs twice;
     run any forest history (submissions with automatic cleans, Cleans/Saves with no reorganisation pending, marks,
-    unmarks); then mark a header that is not yet marked: if the mark succeeds, the chain of NO tracked branch —
+    unmarks); then mark a header — whether or not its hash is already in the invalid list (a configured hash gets
+    there on Load while the header may be in the image) —: if the mark succeeds, the chain of NO tracked branch —
     in particular the reported best chain — passes through the marked header at any height, so neither it
     nor anything built on it is reported as part of a chain. -/
 theorem C17_marked_excluded_after_load (r0 : Repo) (depth : Int) (hd : 0 ≤ depth) (g : Hdr) (hst : StoreOK r0.store)
     (hu : StoreUniq r0.store) (ops : List FOp) (id : Nat) :
     ∃ rl, load r0 depth g = (rl, none) ∧
-      (FHist rl ops → (ops.foldl applyF rl).invalid.contains id = false →
-        (markInvalid (ops.foldl applyF rl) id).2 = none →
+      (FHist rl ops → (markInvalid (ops.foldl applyF rl) id).2 = none →
         ∀ bi ∈ (markInvalid (ops.foldl applyF rl) id).1.branches, ∀ (h : Int) (d : HData),
           (markInvalid (ops.foldl applyF rl) id).1.at bi h = some d → d.hdr.id ≠ id) := by
   obtain ⟨rl, hl, hok⟩ := load_sound r0 depth hd g hst
-  refine ⟨rl, hl, fun hh hnew hs => ?_⟩
+  refine ⟨rl, hl, fun hh hs => ?_⟩
   have hi0 := load_idOK r0 depth g rl hok hl hu
   obtain ⟨hf, hi⟩ := idOK_forest_ops ops rl hok.forest ⟨hok.tip, hok.heaviest⟩ hi0 hh
-  exact markInvalid_chain_excludes _ hf hi id hnew hs
+  exact markInvalid_chain_excludes _ hf hi id hs
 
 /-- the executable tests of the two hypotheses are sound (the driver evaluates them on every loaded image). -/
 theorem C17_image_tests_sound (s : Store) (h1 : storeOKb s = true) (h2 : storeUniqB s = true) : StoreOK s ∧ StoreUniq s :=
